@@ -215,6 +215,8 @@ const preludeCommon = `(declare-sort Str 0)
 (declare-datatypes ((Slice 0)) (((mkSl (sbase Int) (soff Int) (slen Int) (scap Int)))))
 (declare-fun sidx (Slice Int) Int)
 (assert (forall ((s Slice) (i Int)) (! (= (sidx s i) (+ (soff s) i)) :pattern ((sidx s i)))))
+(declare-fun subsl (Slice Int Int Int) Slice)
+(assert (forall ((s Slice) (l Int) (h Int) (m Int)) (! (= (subsl s l h m) (mkSl (sbase s) (+ (soff s) l) (- h l) (- m l))) :pattern ((subsl s l h m)))))
 (declare-fun strlen (Str) Int)
 (assert (forall ((s Str)) (! (>= (strlen s) 0) :pattern ((strlen s)))))
 `
@@ -294,7 +296,15 @@ func runOneCtx(parent context.Context, sp solverSpec, file string, timeoutMs, se
 
 // Solve decides one query. script must contain everything after the prelude,
 // ending with (check-sat) and optionally (get-model).
-func (r *Runner) Solve(script string) *SolveResult {
+func (r *Runner) Solve(script string) *SolveResult { return r.SolveT(script, r.TimeoutMs, false) }
+
+// SolveT decides a query under a specific time limit; with refuteOnly only an unsat answer
+// matters (vacuity covers), so a single solver with a short limit is used.
+func (r *Runner) SolveT(script string, timeoutMs int, refuteOnly bool) *SolveResult {
+	if refuteOnly {
+		save := *r
+		_ = save
+	}
 	r.mu.Lock()
 	if c, ok := r.cache[script]; ok {
 		r.mu.Unlock()
@@ -325,7 +335,11 @@ func (r *Runner) Solve(script string) *SolveResult {
 		status string
 		out    string
 	}
-	if r.AllAgree {
+	if refuteOnly {
+		st, o := runOne(solvers[0], files[0], timeoutMs, r.Seed)
+		res.AllRuns[solvers[0].name] = st
+		res.Status, res.Solver, res.Output = st, solvers[0].name, o
+	} else if r.AllAgree {
 		ch := make(chan ans, len(solvers))
 		for i, sp := range solvers {
 			go func(i int, sp solverSpec) {
